@@ -334,20 +334,39 @@ def rule_limits(ctx, cfg, r):
         r.ok(f.name, "repeat-extra", "repeat codes 16/17/18 are followed by 2/3/7 extra bits")
     else:
         r.fail(f.name, "repeat-extra", "the extra-bit widths [2,3,7] of the repeat codes were not found in start_dynamic_block")
-    # stored block header
+    # stored block header — decided on the paths of flush_block (helpers introduced later are evaluated inline): wherever the 16-bit
+    # LEN field is written, the sequence is BTYPE=00 (2 bits), pad to a byte, LEN = total_bytes & 0xFFFF, NLEN = !total_bytes & 0xFFFF
     fb = c.fn("deflate::core::flush_block")
-    sites = []
-    for bb, t in call_sites(fb, "OutputBufferOxide::put_bits"):
-        v = local_expr(c, fb, bb, t["args"][1])
-        n = local_expr(c, fb, bb, t["args"][2])
-        if paths.term_contains(v, lambda y: y[0] == "place" and "total_bytes" in str(y)) or "total_bytes" in repr(v):
-            sites.append((v, n))
-    pos = [v for v, n in sites if is_const(n) and const_val(n) == 16 and v[0] == "bin" and v[1] == "BitAnd" and const_val(v[3]) == 0xFFFF and not paths.term_contains(v, lambda y: y[0] == "un")]
-    neg = [v for v, n in sites if is_const(n) and const_val(n) == 16 and v[0] == "bin" and v[1] == "BitAnd" and const_val(v[3]) == 0xFFFF and paths.term_contains(v, lambda y: y[0] == "un" and y[1] == "Not")]
-    if len(pos) == 1 and len(neg) == 1:
-        r.ok(fb.name, "stored-header", "stored block: LEN = total_bytes & 0xFFFF, NLEN = !total_bytes & 0xFFFF, 16 bits each")
+    rows_fb = paths.Evaluator(c, effects=ctx.effects(cfg), max_paths=20000).run(fb)
+
+    def tb_field(v, negated):
+        v = v[1] if v[0] == "cast" else v
+        if not (v[0] == "bin" and v[1] == "BitAnd" and is_const(v[3]) and const_val(v[3]) == 0xFFFF):
+            return False
+        inner = v[2]
+        if negated:
+            if not (inner[0] == "un" and inner[1] == "Not"):
+                return False
+            inner = inner[2]
+        return inner[0] == "load" and paths.place_is_field(inner[1], "total_bytes")
+    n_hdr = 0
+    bad_hdr = None
+    for x in rows_fb:
+        evs = [e for e in x.effects if e[0] == "call" and e[1].split("::")[-1] in ("put_bits", "put_bits_no_flush", "pad_to_bytes", "write_bytes")]
+        for i, e in enumerate(evs):
+            if e[1].endswith("put_bits") and len(e[2]) > 2 and tb_field(e[2][1], False):
+                n_hdr += 1
+                good = is_const(e[2][2]) and const_val(e[2][2]) == 16 and i >= 2 and i + 1 < len(evs) and \
+                    evs[i - 1][1].endswith("pad_to_bytes") and evs[i - 2][1].endswith("put_bits") and is_const(evs[i - 2][2][1]) and \
+                    const_val(evs[i - 2][2][1]) == rfc.BTYPE_STORED and is_const(evs[i - 2][2][2]) and const_val(evs[i - 2][2][2]) == 2 and \
+                    evs[i + 1][1].endswith("put_bits") and tb_field(evs[i + 1][2][1], True) and is_const(evs[i + 1][2][2]) and const_val(evs[i + 1][2][2]) == 16
+                if not good:
+                    bad_hdr = x
+    if n_hdr and bad_hdr is None:
+        r.ok(fb.name, "stored-header", "stored block: BTYPE=00, pad, LEN = total_bytes & 0xFFFF, NLEN = !total_bytes & 0xFFFF, 16 bits each")
     else:
-        r.fail(fb.name, "stored-header", "stored block header is not LEN / !LEN as 16-bit fields (LEN sites %d, NLEN sites %d)" % (len(pos), len(neg)))
+        r.fail(fb.name, "stored-header", "stored block header is not BTYPE=00 / pad / LEN / !LEN as 16-bit fields (%d LEN sites seen)" % n_hdr,
+               where=first_span(bad_hdr) if bad_hdr is not None else None)
     # BFINAL
     bf = [(local_expr(c, fb, bb, t["args"][1]), local_expr(c, fb, bb, t["args"][2])) for bb, t in call_sites(fb, "OutputBufferOxide::put_bits")]
     okbf = any(is_const(n) and const_val(n) == 1 and v[0] == "cast" and v[1][0] == "un" or (is_const(n) and const_val(n) == 1 and "Finish" in repr(v)) or
@@ -542,12 +561,21 @@ def run(ctx):
     rule_routing(ctx, cfg, r2, r3)
     r4 = ctx.rule("R10.4", "structural limits: code-length limits 15/15/7, header field widths, stored LEN/NLEN, BFINAL", floor=5, config=cfg)
     rule_limits(ctx, cfg, r4)
+    from rules import tables as _tables
+    r10 = ctx.rule("R10.10", "a fixed block rewrites the RFC 1951 lengths and rebuilds both code tables on every path (nothing cached across blocks)", floor=1, config=cfg)
+    _tables.rule_fixed_tables_every_block(ctx, cfg, r10)
+    from rules import lzbuf as _lzbuf
+    rcap = ctx.rule("R10.11", "LZ token buffer capacity: the bytes one loop iteration may append never exceed the margin of its fullness test", floor=4, config=cfg)
+    _lzbuf.rule_token_buffer_capacity(ctx, cfg, rcap)
     r6 = ctx.rule("R10.6", "length limiting: over-long codes always merged into the limit bucket, Kraft-neutral rebalancing step, applied before sizes are assigned", floor=6, config=cfg)
     rule_length_limit(ctx, cfg, r6)
     r7 = ctx.rule("R10.7", "distances never reach before the start: every admitted match distance is at most dict.size", floor=3, config=cfg)
     dp.rule_history_bound(ctx, cfg, r7)
     r8 = ctx.rule("R10.8", "the probe budget follows the flags: update_flags pairs and constructors use one flags value; single writers", floor=6, config=cfg)
     rule_flags_probes(ctx, cfg, r8)
+    from rules import bitacc
+    r9 = ctx.rule("R10.9", "bit accumulator of compress_lz_codes: the bits appended between two flushes, plus what a flush leaves behind, fit its width", floor=6, config=cfg)
+    bitacc.rule_accumulator(ctx, cfg, r9)
     r5 = ctx.rule("R10.5", "exactly one final block: in-loop blocks use flush None; the final block carries the requested flush", floor=4, config=cfg)
     from rules import c02
     c02.rule_result_discipline(ctx, cfg, r5)
